@@ -500,7 +500,7 @@ func (c *Ctx) EqualDef(d *schema.Def, exp, got any, path string) string {
 		for i, f := range fs {
 			ev, ep := present(el[i])
 			gv, gp := present(gl[i])
-			if f.Deprecated {
+			if f.Deprecated && !c.KeepDeprecated {
 				ep = false // deprecated fields are not transmitted
 			}
 			if ep != gp {
